@@ -2,7 +2,7 @@
 Check: the real scheduler on a virtual clock (event loop whose time() jumps to the next timer when idle; scheduler.perf_counter
 patched to it): begin times against the pacing bound and the model, too-slow reports against the model's rt_check, set_event
 decisions, completion without internal error; grouped and unconnected simulators included (F15, F19)."""
-import asyncio, collections, itertools, json, random, time as _time, warnings
+import asyncio, collections, itertools, json, random, signal, time as _time, warnings
 warnings.simplefilter('ignore')
 from .. import common
 import mosaik, mosaik_api_v3, mosaik.scheduler as sched
@@ -65,14 +65,19 @@ def trial(cfg):
         if s.get('typ') == 'event-based': w.set_initial_event(f'S{i}', 0)
     real = sched.perf_counter; sched.perf_counter = loop.time
     msgs = []; hid = logger.add(lambda m: msgs.append(str(m)), level='WARNING')
+    def alarm(sig, frm): raise TimeoutError('run() did not terminate (watchdog)')
+    signal.signal(signal.SIGALRM, alarm); signal.alarm(10)
     try:
         w.run(cfg['until'], rt_factor=cfg['rt'], rt_strict=cfg['strict'], print_progress=False); out = 'returned'
+    except TimeoutError:
+        out = 'HANG'
     except BaseException as e:
         out = type(e).__name__ + ':' + str(e)[:80]
         try:
             if not w.loop.is_closed(): w.shutdown()
         except BaseException: pass
     finally:
+        signal.alarm(0)
         sched.perf_counter = real; logger.remove(hid)
     return dict(outcome=out, log=list(LOG), too_slow=sum('too slow' in m for m in msgs), ignored=sum('after simulation end' in m for m in msgs))
 
@@ -91,7 +96,8 @@ def monitor(cfg, r):
         if t > 0 and not c > rr * (t - 1): bad.append(f'{sid} began its step for t={t} at {c}s, not after rt_factor*time_resolution*(t-1) = {rr * (t - 1)}s')
     instant = all(not s.get('duration') for s in cfg['sims'])
     expected_fail = cfg['strict'] and not instant
-    if r['outcome'] != 'returned' and not (expected_fail and r['outcome'].startswith('RuntimeError')):
+    if r['outcome'] == 'HANG': bad.append('run() did not terminate')
+    elif r['outcome'] != 'returned' and not (expected_fail and r['outcome'].startswith('RuntimeError')):
         bad.append(f"real-time run with compliant simulators failed: {r['outcome']}")
     if instant and r['too_slow']: bad.append(f"simulators answer instantly but {r['too_slow']} too-slow reports were issued")
     if instant and r['outcome'].startswith('RuntimeError'): bad.append('rt_strict aborted a run whose simulators answer instantly')
